@@ -65,6 +65,7 @@ struct Worker {
     batch_digest: u64,
     first_violation: Option<(u64, J)>,
     samples: Vec<(u64, J)>,
+    strat_done: u64,
 }
 
 /// Probes that mark a run as having exercised the property it was generated for.
@@ -199,6 +200,8 @@ pub fn run_batch<T: Sut>(bc: &BatchCfg) -> BatchOut {
     let start = std::time::Instant::now();
     let threads = bc.threads.max(1);
     let kp: Vec<usize> = key_probes(bc.prop).iter().map(|n| probe_idx(n)).collect();
+    // C02 asks for bounded-exhaustive short histories: lengths 1..=4 (quick) / 1..=5 (thorough)
+    let strat: u64 = if bc.prop == 2 { crate::ops::strat_total(if bc.thorough { 5 } else { 4 }).min(bc.runs) } else { 0 };
     let workers: Vec<Worker> = std::thread::scope(|sc| {
         let mut hs = Vec::new();
         for w in 0..threads {
@@ -220,6 +223,7 @@ pub fn run_batch<T: Sut>(bc: &BatchCfg) -> BatchOut {
                     batch_digest: 0,
                     first_violation: None,
                     samples: Vec::new(),
+                    strat_done: 0,
                 };
                 let mut i = w as u64;
                 while i < bc.runs {
@@ -231,8 +235,15 @@ pub fn run_batch<T: Sut>(bc: &BatchCfg) -> BatchOut {
                     }
                     let seed = run_seed(bc.base_seed, i, bc.prop, &name);
                     let mut rng = Rng::new(seed);
-                    let mut cfg = RunCfg::draw(bc.prop, &caps, bc.thorough, &mut rng);
-                    let ops: Vec<Op<T::Val>> = gen_ops(&mut cfg, &caps, &mut rng);
+                    let (cfg, ops): (RunCfg, Vec<Op<T::Val>>) = if i < strat {
+                        // stratified prefix: every short history over the small alphabet, once
+                        st.strat_done += 1;
+                        (crate::ops::strat_cfg(bc.prop, i), crate::ops::strat_ops(i, &caps, fnv(name.as_bytes())))
+                    } else {
+                        let mut cfg = RunCfg::draw(bc.prop, &caps, bc.thorough, &mut rng);
+                        let ops = gen_ops(&mut cfg, &caps, &mut rng);
+                        (cfg, ops)
+                    };
                     let out = exec::<T>(&ops, &cfg);
                     st.runs += 1;
                     st.steps += out.steps_done as u64;
@@ -306,7 +317,9 @@ pub fn run_batch<T: Sut>(bc: &BatchCfg) -> BatchOut {
             }
         }
         samples.extend(w.samples);
+        out.stratified_done += w.strat_done;
     }
+    out.stratified_total = strat;
     samples.sort_by_key(|s| s.0);
     out.samples = samples.into_iter().take(2).map(|s| s.1).collect();
     out.foreign_samples.truncate(3);
